@@ -9,6 +9,8 @@ import (
 	"sort"
 	"strconv"
 	"strings"
+	"sync"
+	"sync/atomic"
 	"time"
 
 	bgp "github.com/jwhited/corebgp"
@@ -178,6 +180,98 @@ func init() {
 		}
 		return term.L(out...)
 	}
+	// reglin serving [[op,…],…]: one goroutine per op list on one real Server, all released together.
+	// Every call is stamped from one global counter before it is made and after it has returned
+	// (so ret(a) < inv(b) implies a returned before b was called). Result: the history
+	// [ev(tid,inv,ret,op,result),…]; the Lean side decides whether it is linearizable.
+	handlers["reglin"] = func(a []T) T {
+		serving, _ := a[0].Bool()
+		s, err := bgp.NewServer(netip.MustParseAddr("10.9.9.9"))
+		if err != nil {
+			return term.A("newserver-err")
+		}
+		var lis net.Listener
+		serveRet := make(chan error, 1)
+		if serving {
+			l, err := net.Listen("tcp", "127.0.0.1:0")
+			if err != nil {
+				panic("harness: listen: " + err.Error())
+			}
+			lis = l
+			go func() { serveRet <- s.Serve([]net.Listener{l}) }()
+			c, err := net.DialTimeout("tcp", l.Addr().String(), time.Second)
+			if err == nil {
+				c.SetReadDeadline(time.Now().Add(2 * time.Second))
+				io.ReadAll(c)
+				c.Close()
+			}
+		}
+		defer func() {
+			s.Close()
+			if lis != nil {
+				lis.Close()
+			}
+		}()
+		var clock atomic.Uint64
+		type ev struct {
+			tid      int
+			inv, ret uint64
+			op, res  T
+		}
+		var mu sync.Mutex
+		var hist []ev
+		start := make(chan struct{})
+		var wg sync.WaitGroup
+		for tid, th := range a[1].Args {
+			wg.Add(1)
+			go func(tid int, ops []T) {
+				defer wg.Done()
+				<-start
+				for _, op := range ops {
+					var res T
+					inv := clock.Add(1)
+					switch op.Atom {
+					case "add":
+						c, opts := pCfg(op.Args[0], true)
+						res = apiErr(s.AddPeer(c, nopPlugin{}, opts...))
+					case "del":
+						res = apiErr(s.DeletePeer(pAddr(op.Args[0])))
+					case "get":
+						c, err := s.GetPeer(pAddr(op.Args[0]))
+						if err != nil {
+							res = apiErr(err)
+						} else {
+							res = tCfgShort(c)
+						}
+					case "list":
+						var l []T
+						for _, c := range s.ListPeers() {
+							l = append(l, tCfgShort(c))
+						}
+						sort.Slice(l, func(i, j int) bool { return l[i].String() < l[j].String() })
+						res = term.L(l...)
+					case "close":
+						s.Close()
+						res = term.A("ok")
+					default:
+						panic("harness: reglin op " + op.String())
+					}
+					ret := clock.Add(1)
+					mu.Lock()
+					hist = append(hist, ev{tid, inv, ret, op, res})
+					mu.Unlock()
+				}
+			}(tid, th.Args)
+		}
+		close(start)
+		wg.Wait()
+		sort.Slice(hist, func(i, j int) bool { return hist[i].inv < hist[j].inv })
+		out := make([]T, len(hist))
+		for i, e := range hist {
+			out[i] = term.App("ev", term.I(e.tid), term.N(e.inv), term.N(e.ret), e.op, e.res)
+		}
+		return term.L(out...)
+	}
 	handlers["backoff"] = func(a []T) T {
 		var gaps []time.Duration
 		for _, g := range a[0].Args {
@@ -302,6 +396,45 @@ func genRegistrySeqs(g *gen) {
 	g.emit("reg", term.L(term.App("add", g.regCfg()), term.A("serve"), term.App("add", g.regCfg()), term.A("list"), term.A("close"), term.A("serve"), term.A("list")))
 }
 
+// concurrent histories: 2–4 goroutines × 1–5 operations over a small key space (so that they
+// collide), on a server that is serving (peers are started / stopped by the calls) or not
+func genRegistryConcurrent(g *gen) {
+	keys := []string{"v4.1", "v4.2", "v6.1"}
+	cfgFor := func(k string) T {
+		return term.App("cfg", term.A(k), term.A("inv"), term.N(uint64(1+g.r.Intn(2))), term.N(uint64(1+g.r.Intn(2))),
+			term.I(pick(g, 90, 90, 0, 1)), term.I(179), term.B(true))
+	}
+	for i := 0; i < g.scale(400, 6000); i++ {
+		nt := 2 + g.r.Intn(3)
+		var ths []T
+		closes := 0
+		for t := 0; t < nt; t++ {
+			n := 1 + g.r.Intn(5)
+			if nt == 4 && n > 3 {
+				n = 3
+			}
+			var ops []T
+			for j := 0; j < n; j++ {
+				switch x := g.r.Intn(20); {
+				case x < 8:
+					ops = append(ops, term.App("add", cfgFor(pick(g, keys...))))
+				case x < 13:
+					ops = append(ops, term.App("del", term.A(pick(g, keys...))))
+				case x < 16:
+					ops = append(ops, term.App("get", term.A(pick(g, keys...))))
+				case x < 19 || closes > 0:
+					ops = append(ops, term.A("list"))
+				default:
+					closes++
+					ops = append(ops, term.A("close"))
+				}
+			}
+			ths = append(ths, term.L(ops...))
+		}
+		g.emit("reglin", term.B(g.r.Intn(3) != 0), term.L(ths...))
+	}
+}
+
 func genBackoff(g *gen) {
 	gaps := []int{0, 1, 10, 100, 299, 300, 301, 1000}
 	// exhaustive histories up to length 4 (quick: 3) over the gap alphabet
@@ -341,6 +474,6 @@ func genBackoff(g *gen) {
 }
 
 func init() {
-	generators["C20"] = []func(*gen){genConfigGrid, genRegistrySeqs}
+	generators["C20"] = []func(*gen){genConfigGrid, genRegistrySeqs, genRegistryConcurrent}
 	generators["C12"] = []func(*gen){genBackoff}
 }
